@@ -8,8 +8,32 @@ from ..gen import geomutil as U
 from .. import translate as T
 
 PID = "C07"
+# bridges Generated.C07Src.f ~ Model.Geom.f (Props/C07Source.lean) per function translated from its BODY on every run
+BRIDGES = {
+    "mouette/geometry/geometry.py::cross": ["cross_bridge"], "mouette/geometry/geometry.py::norm": ["norm_bridge"],
+    "mouette/geometry/geometry.py::distance": ["distance_bridge"],
+    "mouette/geometry/geometry.py::det_3x3": ["det_3x3_bridge"], "mouette/geometry/geometry.py::triangle_area": ["triangle_area_bridge"],
+    "mouette/geometry/geometry.py::quad_area": ["quad_area_bridge"], "mouette/geometry/geometry.py::angle_3pts": ["angle_3pts_bridge"],
+    "mouette/geometry/geometry.py::cotan": ["cotan_bridge"],
+    "mouette/attributes/attr_faces.py::face_area": ["face_area_at", "face_area_bridge"],
+    "mouette/attributes/attr_faces.py::face_normals": ["face_normals_bridge"],
+    "mouette/attributes/attr_faces.py::face_barycenter": ["face_barycenter_bridge"],
+    "mouette/attributes/attr_faces.py::face_circumcenter": ["face_circumcenter_bridge"],
+    "mouette/attributes/attr_edges.py::edge_length": ["edge_length_bridge"],
+    "mouette/attributes/attr_edges.py::edge_middle_point": ["edge_middle_point_bridge"],
+    "mouette/attributes/attr_cells.py::cell_volume": ["cell_volume_bridge"],
+    "mouette/attributes/attr_cells.py::cell_barycenter": ["cell_barycenter_bridge"],
+    "mouette/attributes/attr_vertices.py::degree": ["degree_fold", "degree_bridge"],
+    "mouette/attributes/glob.py::euler_characteristic": ["euler_characteristic_bridge"],
+    "mouette/attributes/glob.py::barycenter": ["barycenter_bridge"],
+    "mouette/attributes/glob.py::total_area": ["total_area_bridge"],
+    "mouette/attributes/glob.py::mean_face_area": ["mean_face_area_all", "mean_face_area_first", "mean_face_area_clamped"],
+    "mouette/attributes/glob.py::mean_cell_volume": ["mean_cell_volume_all", "mean_cell_volume_clamped"],
+    "mouette/attributes/glob.py::mean_edge_length": ["mean_edge_length_all", "mean_edge_length_clamped"],
+}
+EXTRA_SOURCE_THEOREMS = ["face_area_source_rigid", "face_barycenter_source_rigid", "edge_length_source_rigid", "cell_volume_source_rigid"]
 TITLE = "Geometric quantities match their definitions, invariant under rigid motion"
-LEAN_MODULES = ["Mouette.Props.C07", "Mouette.Props.C07Real", "Mouette.Props.C07Hist"]
+LEAN_MODULES = ["Mouette.Props.C07", "Mouette.Props.C07Real", "Mouette.Props.C07Hist", "Mouette.Props.C07Source"]
 REQUIRED_THEOREMS = [
     "sub_translate", "bary_translate", "circumcenter_translate", "dot_rotate", "norm2_rotate", "cross_rotate",
     "det3_rotate", "det_sq_of_orthogonal", "triArea2_rotate", "cornerCS_rotate", "tetVolume_rotate", "circumcenter_rotate",
@@ -23,7 +47,7 @@ REQUIRED_THEOREMS = [
     "atan2_eq_angle", "codeAngle_eq_angle", "codeAngle_range", "angle_sum_pi", "meshAngle_sum", "corner_sum_by_vertex", "defect_total",
     "gauss_bonnet_combinatorial", "gauss_bonnet_closed", "gauss_bonnet", "handshake_of_manifold", "gauss_bonnet_of_manifold",
     "faceAreaTerms_rotate", "faceCornerCS_rotate", "faceNormalDir_rotate", "faceBary_rotate", "bary_rotate", "mid_rotate", "dist2_rotate",
-]
+] + sorted({t for ts in BRIDGES.values() for t in ts}) + EXTRA_SOURCE_THEOREMS
 TRUSTED = [
     "Lean 4.33.0 kernel; axioms ⊆ {propext, Classical.choice, Quot.sound}",
     "hand-written model Mouette/Model/Geom.lean tied to mouette/geometry/geometry.py and mouette/attributes/*.py by the "
@@ -31,7 +55,9 @@ TRUSTED = [
     "the model computes in exact rational arithmetic; floating-point rounding, sqrt, atan2, tan are not modelled (applied by "
     "the harness to the model's exact pre-transcendental outputs)",
     "edge numbering of the mesh (mesh.edges) is taken from the implementation and checked by the oracle to be the set of face sides",
-    "translator (python ast) for the two index tables of attr_corners.cotangent / attr_edges.cotan_weights",
+    "translator (python ast) for the two index tables of attr_corners.cotangent / attr_edges.cotan_weights, and vlib/gen/c07_translate.py for the "
+    "function bodies listed as `translated` in SOURCE_MAP (statement-by-statement reading into Generated/C07Src.lean; numpy's np.dot / np.sqrt, "
+    "Vec arithmetic, Vec.norm() and Python's sum() are given their mathematical meaning; `Vec.normalized(u)` is a positive rescaling)",
 ]
 ASSUMPTIONS = ["agreement model/implementation is established on the meshes explored in this run only",
                "inputs are non-degenerate (min corner sine ≥ 0.05, weighted normal sums not cancelling); output attributes handed to "
@@ -132,14 +158,14 @@ def observe(kind, V, elems, opts, attrs=None, rep="vec", mesh=None, sfx=None):
     call("emid", A.edge_middle_point, "middle", m.edges, nE, 3)
     call("deg", A.degree, "degree", m.vertices, nV)
     out["g_mel"] = _try(lambda: [float(A.mean_edge_length(m))])
-    out["g_mel_big"] = _try(lambda: [float(A.mean_edge_length(m, nE + 7))])
+    out["g_mel_big"] = _try(lambda: [float(A.mean_edge_length(m, nE + 1 + 3 * (nE % 3)))])
     out["g_bary"] = _try(lambda: [float(c) for c in A.barycenter(m)])
     if kind == "vol":
         nC = len(m.cells)
         call("cvol", A.cell_volume, "volume", m.cells, nC)
         call("cbary", A.cell_barycenter, "barycenter", m.cells, nC, 3)
         out["g_mcv"] = _try(lambda: [float(A.mean_cell_volume(m))])
-        out["g_mcv_big"] = _try(lambda: [float(A.mean_cell_volume(m, nC + 5))])
+        out["g_mcv_big"] = _try(lambda: [float(A.mean_cell_volume(m, nC + 1 + 4 * (nC % 2)))])
     if kind == "surf":
         nF = len(m.faces)
         nK = len(m.face_corners)
@@ -161,7 +187,7 @@ def observe(kind, V, elems, opts, attrs=None, rep="vec", mesh=None, sfx=None):
         n_half = max(1, nE // 2)
         out["g_mel_n"] = _try(lambda: [float(A.mean_edge_length(m, n_half))])
         out["g_mfa"] = _try(lambda: [float(A.mean_face_area(m))])
-        out["g_mfa_big"] = _try(lambda: [float(A.mean_face_area(m, nF + 3))])
+        out["g_mfa_big"] = _try(lambda: [float(A.mean_face_area(m, nF + 1 + 2 * (nF % 2)))])
         out["g_ta"] = _try(lambda: [float(A.total_area(m))])
         out["g_chi"] = _try(lambda: [float(A.euler_characteristic(m))])
     if kind == "surf" and attrs:
@@ -787,14 +813,15 @@ def oracle(case):
             o2 = observe(kind, V2, X, opts, attrs)
             for key in REG:
                 if key not in obs or key not in o2 or key in waived: continue
-                if isinstance(obs[key], str): exp = obs[key]
-                else:
-                    d = REG[key][2]
-                    exp = [x * s ** d for x in obs[key]]
-                bad = U.first_bad(o2[key], exp, _scale_for(key, size * s, amag))
+                # compared at the scale of the ORIGINAL mesh (the scaled result divided by s^d): a tolerance relative to the magnitude of
+                # the values, also for the extreme factors 2^-23 (~1e-7) and 2^20 (~1e6)
+                exp = obs[key]
+                d = REG[key][2]
+                got = o2[key] if isinstance(o2[key], str) else [x / s ** d for x in o2[key]]
+                bad = U.first_bad(got, exp, _scale_for(key, size, amag))
                 if bad:
                     out.append(_finding(f"C07/scale/{key}/{fam}", f"{key} does not scale with the power {REG[key][2]} of a uniform scale factor",
-                                        f"s=2^{k} index {bad[0]}: scaled {bad[1]} expected {bad[2]}"))
+                                        f"s=2^{k} index {bad[0]}: scaled result / s^{d} = {bad[1]}, expected {bad[2]}"))
         elif which == "renum":
             V2, X2, attrs2, maps = renumbered(case, mrng)
             o2 = observe(kind, V2, X2, opts, attrs2)
@@ -1016,7 +1043,7 @@ def _decorate(rng, case, metas):
     case["meta"] = metas
     case["mseed"] = rng.randrange(1 << 30)
     case["motion"] = {"q": list(rng.choice(U.QUATS[1:])), "t": [_dy(rng, -5, 5), _dy(rng, -5, 5), _dy(rng, -5, 5)]}
-    case["scale"] = rng.choice([-3, -2, -1, 1, 2, 3, 5])
+    case["scale"] = rng.choice([-3, -2, -1, 1, 2, 3, 5, -23, -23, 20])
     # representation of the vertex coordinates handed to the mesh (same values): Vec / list / tuple / ndarray / float32 / python ints / int64
     rep = rng.choice(REPS) if rng.random() < 0.55 else "vec"
     if case.get("tag") in ("dart",): rep = "vec"
@@ -1340,7 +1367,56 @@ def translate():
     body.append("end Mouette.Generated.C07\n")
     if all(s["ok"] for s in sites):
         T.write_generated("C07Idx", "".join(body))
-    return sites
+    # function BODIES read imperatively (vlib/gen/c07_translate.py) -> Generated/C07Src.lean, bridged in Props/C07Source.lean
+    from ..gen import c07_translate as CT
+    text, bsites, info = CT.translate_c07()
+    if all(s["ok"] for s in bsites):
+        T.write_generated("C07Src", text)
+    missing = sorted(set(BRIDGES) - set(info["translated"]))
+    for m in missing:
+        if not any((not b["ok"]) for b in bsites):
+            bsites.append({"site": m, "ok": False, "detail": "listed as translated in SOURCE_MAP but not produced by the translator"})
+    return sites + bsites
+
+
+_OOS = "out-of-scope: "
+SOURCE_MAP = {k: "translated" for k in BRIDGES}
+SOURCE_MAP.update({
+    # geometry.py
+    "mouette/geometry/geometry.py::dot": "modelled",                     # np.dot wrapper = Geom.dot
+    "mouette/geometry/geometry.py::circumcenter": "modelled",            # Geom.circumcenter (closed form) + circumcenter_equidistant_and_coplanar/_unique
+    "mouette/geometry/geometry.py::face_basis": "modelled",              # through circumcenter / C08 faceBasis
+    "mouette/geometry/geometry.py::intersect_2lines2D": "modelled",      # through circumcenter
+    "mouette/geometry/geometry.py::aspect_ratio": "oracle-only",
+    "mouette/geometry/geometry.py::det_2x2": _OOS + "2-D determinant: reached from the statement's quantities only as the |det| < 1e-12 parallel test inside circumcenter (sign-insensitive); its other callers are 2-D parametrisation code",
+    "mouette/geometry/geometry.py::sign0": _OOS + "sign helper of the signed angles (parametrisation code), no quantity of the statement",
+    "mouette/geometry/geometry.py::sign": _OOS + "sign helper, no quantity of the statement",
+    "mouette/geometry/geometry.py::signed_angle_2vec3D": _OOS + "signed angle w.r.t. a normal: used by frame fields (C18), not by the attribute functions",
+    "mouette/geometry/geometry.py::signed_angle_3pts": _OOS + "as signed_angle_2vec3D",
+    "mouette/geometry/geometry.py::angle_2vec2D": _OOS + "2-D angle difference used by parametrisation code only",
+    "mouette/geometry/geometry.py::angle_2vec3D": _OOS + "used by curvature_matrices only",
+    "mouette/geometry/geometry.py::triangle_area_2D": _OOS + "2-D variant, not reached from the attribute functions",
+    "mouette/geometry/geometry.py::distance_to_segment2D": _OOS + "2-D helper of the samplers",
+    "mouette/geometry/geometry.py::project_to_plane": _OOS + "not reached from the attribute functions",
+    # attributes
+    "mouette/attributes/attr_vertices.py::angle_defects": "modelled",    # default / border value / skip guard translated (defect_table), loop hand-modelled
+    "mouette/attributes/attr_vertices.py::vertex_normals": "modelled",   # weighted sums of the model's face normals (harness), oracle for every weighting
+    "mouette/attributes/attr_vertices.py::border_normals": _OOS + "border-curve normals are not in the statement's list of quantities",
+    "mouette/attributes/attr_edges.py::cotan_weights": "modelled",       # opposite-corner expression translated (oppCorner_bridge), loop hand-modelled
+    "mouette/attributes/attr_edges.py::curvature_matrices": _OOS + "curvature tensors are not in the statement's list of quantities",
+    "mouette/attributes/attr_faces.py::face_near_border": _OOS + "combinatorial flag, not a geometric quantity of the statement",
+    "mouette/attributes/attr_faces.py::triangle_aspect_ratio": "oracle-only",
+    "mouette/attributes/attr_faces.py::parallel_transport_curvature": _OOS + "needs a connection object (C18)",
+    "mouette/attributes/attr_corners.py::corner_angles": "modelled",     # body translated (Generated.C07Src.corner_angles) but not yet bridged: counted as modelled
+    "mouette/attributes/attr_corners.py::cotangent": "modelled",         # argument table translated (cotanArgs_bridge), loop hand-modelled
+    "mouette/attributes/attr_cells.py::cell_faces_on_boundary": _OOS + "combinatorial flag, not a geometric quantity of the statement",
+    "mouette/attributes/interpolate.py::interpolate_vertices_to_faces": "modelled",
+    "mouette/attributes/interpolate.py::interpolate_faces_to_vertices": "modelled",   # sum/uniform modelled, area/angle through wmean + oracle; clear() sites translated
+    "mouette/attributes/interpolate.py::scatter_vertices_to_corners": "oracle-only",
+    "mouette/attributes/interpolate.py::average_corners_to_vertices": "oracle-only",  # clear() sites translated (interp_outputs_cleared)
+    "mouette/attributes/interpolate.py::scatter_faces_to_corners": "oracle-only",
+    "mouette/attributes/interpolate.py::average_corners_to_faces": "oracle-only",
+})
 
 
 MANIFEST = {
